@@ -91,3 +91,8 @@ UNITS = [
              use_as_callee=False, inline=[f"{FIX}:_FixForUTF16Regex._convert_to_surrogates"],
              replay="native.c17:replay_literal"),
 ]
+
+# the language postconditions belong to C17 only; for C02 these units contribute their crash obligations
+for _u in UNITS:
+    if "C02" in _u.props:
+        _u.ensures_only_for = ["C17"]
